@@ -9,10 +9,12 @@ datasets as a declared `numObs` plus an ordered tree of fields, and every operat
 threading the code's `memo` (old id ↦ new id).  Objects are never mutated: every operation
 of the code builds new arrays, which is an allocation here.
 
-What is *not* modelled: numeric conversion between time scales / formats and between
-position systems inside `insert` (the generators keep scale, format, system and ellipsoid
-equal), `meta`, the `_<x>_sliced` side channels of integer/slice indexing (C04/C08).
-Unit factors come from pint and are a parameter (`Units`).
+Time scale / format conversion inside `TimeBase.insert` *is* modelled: a time object carries the tag
+`<scale>/<format>` (a time delta `d:<scale>/<format>`), a row of it is `[jd1, jd2, value(s) in the format]`,
+and the epoch-by-epoch conversion function of the Time classes is a parameter (`Conv`, a finite table computed
+from the real code, like the pint unit factors in `Units`).
+What is *not* modelled: conversion between position systems inside `insert` (the generators keep system and
+ellipsoid equal), `meta`, the `_<x>_sliced` side channels of integer/slice indexing (C04/C08).
 -/
 namespace Midgard.Dataset
 
@@ -62,9 +64,20 @@ structure Obj where
   rows : List Row
   other : Option Nat := none
   refPos : Option Nat := none
+  /-- `<scale>/<format>` of a time, `d:<scale>/<format>` of a time delta; `""` for every other kind and for the
+  transient "empty" arrays of the padding (made in the scale of the field, shown in its format) -/
+  tag : String := ""
   deriving DecidableEq, Repr, Inhabited
 
 abbrev Heap := List Obj
+
+/-- What `TimeBase.insert(a, pos, b)` does to one epoch of `b` before splicing: `b = getattr(b, a.scale)`,
+`b_formatted = getattr(b, a.fmt)`, `b.jd1`, `b.jd2` — a function `(tag of b, tag of a, row of b) ↦ row`, given as a
+finite table computed from the real Time classes (parameter of the model). -/
+abbrev Conv := List ((String × String × Row) × Row)
+
+/-- the scale part of a tag -/
+def tagScale (t : String) : String := (t.splitOn "/").headD ""
 
 inductive Err
   | index       -- IndexError (bad subset index)
@@ -81,6 +94,7 @@ inductive Err
 structure St where
   heap : Heap
   memo : List (Nat × Nat) := []
+  conv : Conv := []
   deriving Repr, Inhabited
 
 abbrev M := Except Err
@@ -143,8 +157,8 @@ def emptyRow (k : Kind) (cols : Nat) : Row :=
   | .text => List.replicate cols (.txt "")
   | .float => List.replicate cols .nan
   | .sigma => List.replicate (2 * cols) .nan
-  | .time => [.nan, .nan]                    -- `datetime.min`, canonicalised by the harness
-  | .timeDelta => [.num 0, .num 0]           -- `timedelta(0)`
+  | .time => List.replicate (2 + cols) .nan              -- `datetime.min` (jd1, jd2, value), canonicalised by the harness
+  | .timeDelta => List.replicate (2 + cols) (.num 0)     -- `timedelta(0)`
   | .position | .positionDelta => List.replicate 3 .nan
   | .posvel | .posvelDelta => List.replicate 6 .nan
 
@@ -204,6 +218,25 @@ def subsetPlain (idx : Index) (o : Nat) (s : St) : M (Nat × St) :=
       let (o', s1) := s.alloc { obj with rows := rows }
       .ok (o', s1.set o o')
 
+/-- does `insert(a, …, b)` convert `b` (another scale or format than `a`)?  The padding arrays (tag `""`) are made in
+the scale of the field; their rows are the canonical empty row in every format. -/
+def needsConv (toTag : String) (ob : Obj) : Bool := !(ob.tag == toTag || ob.tag == "")
+
+/-- every epoch of `b` has an entry in the conversion table (else: outside the modelled fragment) -/
+def convertible (cv : Conv) (toTag : String) (ob : Obj) : Bool :=
+  !needsConv toTag ob ||
+    -- (there is no conversion between the scales of time deltas: `UnknownConversionError`, whatever the rows)
+    (!(ob.kind == .timeDelta && tagScale ob.tag != tagScale toTag) &&
+     ob.rows.all (fun r => (cv.lookup (ob.tag, toTag, r)).isSome))
+
+/-- the rows of `b` as `insert` splices them into an array with tag `toTag` -/
+def convRows (cv : Conv) (toTag : String) (ob : Obj) : List Row :=
+  if needsConv toTag ob then ob.rows.map (fun r => (cv.lookup (ob.tag, toTag, r)).getD r) else ob.rows
+
+/-- `memo[id(b)] = …` of `TimeBase.insert` is stored under the id of `b` *after* `b = getattr(b, a.scale)`: when the
+scales differ that is the (cached) converted array, which no dataset holds — the entry is never found again -/
+def memoB (toTag : String) (ob : Obj) : Bool := !(needsConv toTag ob && tagScale ob.tag != tagScale toTag)
+
 /-- `TimeBase.insert`, `SigmaArray.insert`, `PositionArray.insert`, `PositionDeltaArray.insert`.
 `a`/`b` are object ids; returns the id of the combined object. -/
 def insertObj : Nat → Nat → Nat → Nat → St → M (Nat × St)
@@ -218,8 +251,9 @@ def insertObj : Nat → Nat → Nat → Nat → St → M (Nat × St)
     match s.heap[a]?, s.heap[b]? with
     | some oa, some ob =>
       -- (model guard: both arrays are of the same class, as the field types guarantee)
-      if oa.kind != ob.kind then .error .unsupported else
-      let rows := insertAt oa.rows pos ob.rows
+      -- (and: every epoch of `b` that has to be converted to the scale / format of `a` is in the table)
+      if oa.kind != ob.kind || !convertible s.conv oa.tag ob then .error .unsupported else
+      let rows := insertAt oa.rows pos (convRows s.conv oa.tag ob)
       -- registered attribute `other` (only `PositionArray.insert` has the loop)
       let othR : M (Option Nat × St) :=
         if !oa.kind.hasOther then .ok (none, s) else
@@ -278,7 +312,7 @@ def insertObj : Nat → Nat → Nat → Nat → St → M (Nat × St)
         | .error e => .error e
         | .ok (rp, s2) =>
           let (n, s3) := s2.alloc { oa with rows := rows, other := oth, refPos := rp }
-          .ok (n, (s3.set a n).set b n)
+          .ok (n, if memoB oa.tag ob then (s3.set a n).set b n else s3.set a n)
     | _, _ => .error .dangling
 
 /-- `np.insert` of the plain kinds (`Bool/Float/TextField._extend/_prepend_empty/_append_empty`):
@@ -392,11 +426,15 @@ def dsSubset (idx : Index) (h : Heap) (d : DS) : M (Heap × DS) :=
 
 /-! ### `extend` -/
 
-/-- pint conversion factors `Unit(from, to)` as a finite table (parameter of the model) -/
-abbrev Units := List (String × String × Rat)
+/-- The parameters of the model that are computed from the real code: the pint conversion factors
+`Unit(from, to)` as a finite table, and the epoch-by-epoch time scale / format conversion (`Conv`). -/
+structure Units where
+  table : List (String × String × Rat) := []
+  conv : Conv := []
+  deriving Repr, Inhabited
 
 def Units.factor (us : Units) (fr to : String) : Option Rat :=
-  if fr == to then some 1 else (us.find? (fun t => t.1 == fr && t.2.1 == to)).map (·.2.2)
+  if fr == to then some 1 else (us.table.find? (fun t => t.1 == fr && t.2.1 == to)).map (·.2.2)
 
 def scaleScalar (f : Rat) : Scalar → Scalar
   | .num q => .num (q * f)
@@ -550,7 +588,7 @@ def extendFields (us : Units) (selfLen otherLen : Nat) (self other : List Field)
 
 /-- `Dataset.extend(other)` -/
 def dsExtend (us : Units) (h : Heap) (d e : DS) : M (Heap × DS) :=
-  match extendFields us d.numObs e.numObs d.fields e.fields { heap := h } with
+  match extendFields us d.numObs e.numObs d.fields e.fields { heap := h, conv := us.conv } with
   | .error err => .error err
   | .ok (fs, s) => .ok (s.heap, { numObs := d.numObs + e.numObs, fields := fs })
 
